@@ -21,6 +21,10 @@ type c08Case struct {
 	// FailRevUpdate k > 0: the k-th ControllerRevision update after the edit is refused once (500); the
 	// failed sync is retried and the rollout still completes within the bound
 	FailRevUpdate int `json:"failRevisionUpdate,omitempty"`
+	// SecondKind: what the second edit is - "" a new revision; "drop-first" the first desired child
+	// (already moved to the latest revision by then) is no longer desired (not a revisioned change
+	// when the field paths are ["spec.template"])
+	SecondKind string `json:"secondEditKind,omitempty"`
 }
 
 func (c c08Case) id() string {
@@ -30,6 +34,9 @@ func (c c08Case) id() string {
 	}
 	if c.FailRevUpdate > 0 {
 		id += fmt.Sprintf("-failrev%d", c.FailRevUpdate)
+	}
+	if c.SecondKind != "" {
+		id += "-" + c.SecondKind
 	}
 	return id
 }
@@ -76,6 +83,16 @@ func TestVerif_C08_Progress(t *testing.T) {
 							}
 						}
 					}
+				}
+			}
+		}
+	}
+	// mid-rollout the hook stops desiring a child that has already moved to the latest revision
+	for _, method := range []string{"RollingInPlace", "RollingRecreate"} {
+		for _, fp := range []bool{false, true} {
+			for _, n := range []int{2, 3} {
+				for _, after := range []int{1, 2} {
+					cases = append(cases, c08Case{Cfg: rolloutCfg{Kind: "Widget", Method: method, N: n, FieldPaths: fp}, SecondEdit: after, SecondKind: "drop-first"})
 				}
 			}
 		}
@@ -141,6 +158,11 @@ func runC08(t *testing.T, c c08Case) {
 		bound := 4*c.Cfg.N + 8
 		syncs := 0
 		for round := 0; round < 3*bound; round++ {
+			if secondAfter >= 0 && syncs >= secondAfter && c.SecondKind == "drop-first" {
+				ro.editParent(func() { ro.r.kids = ro.r.kids[1:] })
+				secondAfter = -1
+				syncs = 0
+			}
 			if secondAfter >= 0 && syncs >= secondAfter {
 				ro.newRev()
 				secondAfter = -1
